@@ -139,7 +139,9 @@ def programs(draw, opts=None):
             if kind == "var":
                 vi = draw(st.sampled_from([vi for vi, v in enumerate(prog["vars"]) if readable(v)]))
                 if prog["vars"][vi]["mod"] != here_mod:
-                    body.append(["var", vi, "modattr"])
+                    nm_ = prog["vars"][vi]["name"]
+                    clash = nm_ in here_params or any(v["mod"] == here_mod and v["name"] == nm_ for v in prog["vars"])
+                    body.append(["var", vi, "modattr_local" if (not clash and draw(st.integers(0, 2)) == 0) else "modattr"])
                 else:
                     body.append(["var", vi, "method"] if draw(st.integers(0, 3)) == 0 else ["var", vi])
             elif kind == "comp":
